@@ -95,3 +95,13 @@ bool w_fs_suppresses_symbol(function_suppression* s, const abigail::ir::elf_symb
 bool w_vs_suppresses_symbol(const variable_suppression* s, const abigail::ir::elf_symbol* sym, unsigned k)
 { return s->suppresses_variable_symbol(sym, static_cast<variable_suppression::change_kind>(k), abigail::comparison::diff_context_sptr()); }
 }
+extern "C" {
+// a real type_suppression that only constrains the kind of type
+type_suppression* w_ts_kind_new(bool consider, unsigned kind)
+{
+  type_suppression* s = new type_suppression("l", "", "");
+  s->set_consider_type_kind(consider);
+  s->set_type_kind(static_cast<type_suppression::type_kind>(kind));
+  return s;
+}
+}
